@@ -60,3 +60,12 @@ func specVMWF(vm *vm) bool {
 	return vm != nil && vm.r != nil && vm.sp >= 0 && vm.sp <= math.MaxInt32 &&
 		len(vm.callStack) <= math.MaxInt32 && len(vm.iterStack) <= math.MaxInt32 && len(vm.refStack) <= math.MaxInt32 && len(vm.tryStack) <= math.MaxInt32
 }
+
+// specIsUncatchable: the two errors script can never observe.
+func specIsUncatchable(x interface{}) bool {
+	switch x.(type) {
+	case *InterruptedError, *StackOverflowError:
+		return true
+	}
+	return false
+}
